@@ -150,7 +150,7 @@ fn main() {
             rep
         }
         "TWIN" => {
-            let mut rep = Report::new("TWIN", "cases = one call of the real function through its hook on generated arguments (extend_match: repetitive buffers, limits touching the physical end; normalize: table lengths around the SIMD width, offsets near i32::MAX); non-trivial = non-empty argument; distinct = (function, size class, extension, touches-end)");
+            let mut rep = Report::new("TWIN", "cases = one call of the real function through its hook on generated arguments (extend_match: repetitive buffers, limits touching the physical end; normalize: table lengths around the SIMD width, offsets near i32::MAX; get_match_len_fast_reject: read_pos on the last bytes of the physical buffer, length limits 0/1/2/up to/beyond the end, windows of LZEncoder::new; decode_direct_bits: default dispatch and portable loop from explicit states, counts 0..40, buffer ending inside the run, code >= range, range at its extremes); non-trivial = non-empty argument; distinct = (function, size class, extension, touches-end)");
             twin::run_twins(&mut rep, &mut rng, thorough);
             rep
         }
